@@ -564,6 +564,23 @@ def shrink(sc, fails):
     return cur
 
 
+def eval_model(ctx, streams, budget=2000):
+    """Model observations, one coq_eval call per stream; files are kept below `budget` operations each
+    (the printed result of one file is a single Coq string; beyond ~5000 operations coqc overflows its stack)."""
+    out = [None] * len(streams)
+    groups = {}
+    for i, (name, sc) in enumerate(streams):
+        groups.setdefault(name, []).append(i)
+    for name, idx in groups.items():
+        longest = max(len(streams[i][1]["prog"]) for i in idx)
+        shard = max(5, budget // max(1, longest))
+        tag = "".join(ch if ch.isalnum() else "_" for ch in name)
+        lines = ctx.coq_eval(f"Cases_C14_{tag}", REQUIRES, PRELUDE, [coq_scenario(streams[i][1]) for i in idx], shard=shard)
+        for i, l in zip(idx, lines):
+            out[i] = l
+    return out
+
+
 # ----------------------------------------------------------------------------- run / replay
 
 def run(ctx):
@@ -588,7 +605,7 @@ def run(ctx):
     scenarios = [sc for _, sc in streams]
 
     obs = run_batch(scenarios)
-    model = ctx.coq_eval("Cases_C14", REQUIRES, PRELUDE, [coq_scenario(sc) for sc in scenarios], shard=150)
+    model = eval_model(ctx, streams)
 
     known_ids = {e["id"] for e in lib.load_known_findings(PID) if e.get("status") == "known"}
     mism, viol = [], []
